@@ -972,8 +972,7 @@ def source_hash(M):
 
 def translate(M):
     """Trace everything; returns (gen_text, exec_text, inventory)."""
-    saved = (M._math, M._warnings)
-    M._math, M._warnings = MathShim(), WarnShim()
+    restore = math_api.install_shims(M, MathShim(), WarnShim())
     try:
         fns = [trace_entry(M, e) for e in API.values()]
         sws = []
@@ -984,7 +983,7 @@ def translate(M):
             except Untranslatable as e:
                 sw_errors[c] = str(e)
     finally:
-        M._math, M._warnings = saved
+        restore()
 
     rel = os.path.relpath(M.__file__, os.path.dirname(os.path.dirname(M.__file__)))
     gen = [GEN_PRELUDE, f'-- source: {rel}\n']
